@@ -17,6 +17,8 @@
 //! messages over NFS, so it makes sense to assume everyone can access the NFS
 //! server.
 mod atomic_base_time;
+#[cfg(woodpile_verif)]
+pub mod verif_sync;
 pub mod nfs_voucher;
 
 use std::io::Result;
